@@ -143,7 +143,7 @@ def check(chk: Check) -> None:
         owner_q = cls + '.eval'
         stt = ('param', om.state_param(F, owner_q))
         names = ('attr', stt, 'names')
-        strs = om.dispatch_strings(F, owner_q) if clo is None else []
+        strs = om.op_specs(F, cls) if clo is None else []
         seen: Dict[str, Tuple[str, str, int]] = {}
         for op in (strs or [None]):
             paths = closure_paths(F, fi, clo) if clo is not None else om.eval_paths(F, cls, op)
